@@ -7,6 +7,7 @@ package rpcutil
 
 //@ func CtxsWithCancel
 //@   opts trusted
+//@   ensures len(res1) == n && len(res2) == n
 //@   modifies nothing
 
 //@ func CtxsWithTimeout
@@ -21,6 +22,10 @@ package rpcutil
 //@   opts trusted
 //@   modifies nothing
 //@ func CopyPinInfoToIfaces
+//@   opts trusted
+//@   ensures len(res) == len(in)
+//@   modifies nothing
+//@ func CopyPinInfoSliceToIfaces
 //@   opts trusted
 //@   ensures len(res) == len(in)
 //@   modifies nothing
